@@ -1,5 +1,5 @@
 """bycycle.cyclepoints.phase._merge_phases — C17 (the merge / masking half; anchors + interpolation are bounded)."""
-from . import contract, arr_result
+from . import contract, arr_result, phase_eip
 from vf.values import XR, INT
 
 # merged value at i: the +pi branch where the -pi branch decreases towards the next sample, else the -pi branch
@@ -57,8 +57,34 @@ contract(
     # explicit witnesses for the two next(...) searches: the rising step assumed to exist; and, after the head has been
     # masked, that same rising step seen from the reversed end
     witness={2: "len(pha) - 2 - first_empirical_idx"},
+    exposed_locals={'first_empirical_idx': INT, 'last_empirical_idx': INT},
     proof={('before_return',): _tail_proof},
     ensures_using={10: ['tail-steps-zero']},
     modifies=[],
     result=arr_result(XR),
 )
+
+
+# ------------------------------------------------------------------------------------------------ extrema_interpolated_phase
+def _eip_cases():
+    out = []
+    for first in ('peak', 'trough'):
+        A, B = ('peaks', 'troughs') if first == 'peak' else ('troughs', 'peaks')
+        out.append(dict(
+            label='no-midpoints,%s-first' % first,
+            params={'sig': ('arr', XR), 'peaks': ('arr', INT), 'troughs': ('arr', INT), 'rises': 'none', 'decays': 'none'},
+            requires=[
+                # alternating extrema, at least two samples apart, inside the signal; at least one of each kind
+                "len({B}) >= 1 and (len({A}) == len({B}) or len({A}) == len({B}) + 1)".format(A=A, B=B),
+                "forall(k, 0 <= k < len({B}), 0 <= {A}[k] and {A}[k] + 2 <= {B}[k] and {B}[k] < len(sig))".format(A=A, B=B),
+                "forall(k, 0 <= k < len({A}) - 1, {B}[k] + 2 <= {A}[k + 1] and {A}[k + 1] < len(sig))".format(A=A, B=B),
+            ],
+            proof={('before_lib', 'numpy.interp', 1): phase_eip.before_interp(first),
+                   ('before_lib', 'numpy.interp', 2): phase_eip.before_interp(first),
+                   ('before_assign', 'pha'): phase_eip.before_merge(first),
+                   ('before_return',): phase_eip.before_return(first)},
+            ensures=list(phase_eip.ENSURES), ensures_using=dict(phase_eip.ENSURES_USING)))
+    return out
+
+
+contract('bycycle.cyclepoints.phase.extrema_interpolated_phase', cases=_eip_cases(), modifies=[], result=arr_result(XR))
